@@ -91,3 +91,16 @@ Proof.
   split; [rewrite V1, V2; reflexivity|].
   unfold randcap_unrot in E0, E1. inversion E0. inversion E1. reflexivity.
 Qed.
+
+(* ---------------------------------------------------------------- system='xyz' on FLOAT outputs:
+   what C19_box_xyz_unit_vector_in_box says, with the rounding slack of the per-case certificates
+   (sinslack in the components).  The longitude condition is stated through the two half-planes
+   sin(ra - ra0) >= 0 and sin(ra1 - ra) >= 0 and is only used for boxes at most 180 deg wide. *)
+Definition box_xyz_fl (dec0 dec1 : R) (p : vec3) : Prop :=
+  let '(x, y, z) := p in
+  Rabs (x * x + y * y + z * z - 1) <= 4 * sinslack
+  /\ sin (d2r dec0) - sinslack <= z <= sin (d2r dec1) + sinslack.
+
+Definition lon_halfplanes_fl (ra0 ra1 : R) (p : vec3) : Prop :=
+  let '(x, y, _) := p in
+  - sinslack <= y * cos (d2r ra0) - x * sin (d2r ra0) /\ - sinslack <= x * sin (d2r ra1) - y * cos (d2r ra1).
